@@ -61,6 +61,21 @@ def install(w):
                props={"C11", "C12"})
 
 
+def install_dispatch(w):
+    """Visitor.get_enter_leave_for_kind: the handler pair of a kind.  Each phase falls back to the
+    generic method on its own: enter_<kind> if the visitor has one, else enter; leave_<kind> if it
+    has one, else leave (the documented API, which ParallelVisitor and TypeInfoVisitor build on).
+    The per-kind cache is not modelled (a hit returns what an earlier miss stored)."""
+    w.shape("Visitor", enter_leave_map=("absmap", ("tuple", "dyn", "dyn")))
+    PICK = "ite_val(truthy(vattr(self, '{0}_', kind)), vattr(self, '{0}_', kind), vattr(self, '{0}', ''))"
+    w.contract(f"{VM}.Visitor.get_enter_leave_for_kind", params={"kind": "str"},
+               returns=("tuple", "dyn", "dyn"), ensures=[], raises=[], modifies=[],
+               exit_post=["same(enter_fn, " + PICK.format("enter") + ")",
+                          "same(leave_fn, " + PICK.format("leave") + ")",
+                          "same(result[0], enter_fn)", "same(result[1], leave_fn)"],
+               props={"C11", "C12"})
+
+
 def install_validate(w):
     VV = "graphql.validation.validate"
     w.alias("ValidationAbortedError", "graphql.validation.validate.ValidationAbortedError")
@@ -103,6 +118,7 @@ _install = install
 
 def install(w):   # noqa: F811
     _install(w)
+    install_dispatch(w)
     install_validate(w)
 
 
